@@ -118,7 +118,8 @@ Definition up_verdict (guard : bool) (cap : nat) (mp offset ratio : Z) : verdict
       if stalled then Hangs
       else if (1 <=? d) && (0 <=? offset) && (ratio <=? 2 * d * offset) && (search_up_bound ratio mp <? LIMIT)
       then Returns (search_up_bound ratio mp)
-      else if (1 <=? d) && (0 <=? offset) && (2 * ratio <=? offset * d) && (LIMIT <=? search_up_lower ratio mp' offset)
+      else if (1 <=? d) && (0 <=? offset) && (2 * ratio <=? offset * d) && (0 <=? mp') && (mp' <=? DEC_LIM)
+              && (LIMIT <=? search_up_lower ratio mp' offset)
       then Hangs
       else Unknown
   end.
@@ -128,7 +129,7 @@ Definition down_verdict (guard : bool) (cap : nat) (mp offset ratio : Z) : verdi
   | inl n => Returns n
   | inr (mp', stalled) =>
       if stalled then Hangs
-      else if (negb guard) && (0 <? ratio) && (ratio <=? P) && (0 <=? mp') then Hangs
+      else if (negb guard) && (0 <? ratio) && (ratio <=? P) && (0 <=? mp') && (mp' <=? DEC_LIM) then Hangs
       else if (1 <=? d) && (P <? 2 * d * mp) && (0 <=? mp) && (search_down_bound ratio offset <? LIMIT)
       then Returns (search_down_bound ratio offset)
       else Unknown
